@@ -42,10 +42,10 @@ def nontrivial_restr(evs):
 IDX = {
     "specdir": "labelindex",
     "design": [{"module": "I_Inherit", "cfg": "MC_I_Inherit_quick.cfg", "thorough_cfg": "MC_I_Inherit.cfg", "workers": 4,
-                "thorough_timeout": 1500},
-               {"module": "I_Inherit", "cfg": "MC_I_Inherit_2p.cfg", "workers": 4}],
+                "timeout": 900, "thorough_timeout": 1500},
+               {"module": "I_Inherit", "cfg": "MC_I_Inherit_2p.cfg", "workers": 4, "timeout": 900}],
     "gen": {"module": "Gen_Inherit", "cfg": "Gen_cover_small.cfg", "thorough_cfg": "Gen_cover.cfg", "workers": 1,
-            "max": 1200, "thorough_max": 30000, "thorough_timeout": 900},
+            "max": 1200, "thorough_max": 30000, "timeout": 900, "thorough_timeout": 1500},
     "driver": {"cmd": "labelidx"},
     "n_random": (120, 3000),
     "trace": {"module": "T_LabelIdx", "cfg": "T_LabelIdx.cfg", "timeout": 1500},
@@ -69,8 +69,8 @@ IDX = {
 
 RESTR = {
     "specdir": "selector",
-    "design": [{"module": "I_Restr", "cfg": "MC_I_Restr_quick.cfg", "thorough_cfg": "MC_I_Restr.cfg", "workers": 4}],
-    "gen": {"module": "Gen_Selector", "cfg": "Gen_Selector.cfg", "workers": 1, "max": 40, "thorough_max": None},
+    "design": [{"module": "I_Restr", "coverage": False, "cfg": "MC_I_Restr_quick.cfg", "thorough_cfg": "MC_I_Restr.cfg", "workers": 4, "timeout": 900}],
+    "gen": {"module": "Gen_Selector", "cfg": "Gen_Selector.cfg", "workers": 1, "max": 40, "thorough_max": None, "timeout": 900},
     "driver": {"cmd": "selector", "env": {"VERIF_RESTR": "1"}},
     "n_random": (15, 400),
     "trace": {"module": "T_Restr", "cfg": "T_Restr.cfg", "timeout": 1500},
